@@ -372,6 +372,37 @@ def readdir_fault_family(run, binary):
         shutil.rmtree(base, ignore_errors=True)
 
 
+def many_folders_few_fds_family(run, binary):
+    """Thousands of small folders listed with a low limit on open files (ulimit -n 256): the walk holds a directory open only while entries
+    of it are waiting in the bounded result queue, so the number of descriptors it needs is bounded whatever the tree shape - a fully readable
+    tree must be listed to its end."""
+    import shutil, tempfile
+    import e2e
+    base = tempfile.mkdtemp(prefix='c17fd_', dir=vlib.CACHE)
+    try:
+        root = os.path.join(base, 's')
+        os.makedirs(root)
+        os.symlink('nowhere', os.path.join(base, 'target'))
+        n_dirs = 1500
+        for i in range(n_dirs):
+            d = os.path.join(root, 'g%02d' % (i % 30), 'd%04d' % i)
+            os.makedirs(d)
+            for j in range(16):
+                os.symlink('../../../target', os.path.join(d, 'l%02d' % j))
+        total = n_dirs * 17 + 30
+        for limit in (1024, 256):
+            r = e2e.run_cli(binary, [root + '/', os.path.join(base, 'out') + '/', '--dry-run', '--quiet'], timeout=120,
+                            prefix=['sh', '-c', 'ulimit -n %d; exec "$@"' % limit, 'sh'])
+            run.count('few-fds:%d:exit:%s' % (limit, 'hang' if r['timed_out'] else r['exit']))
+            run.case(('few-fds', limit), True, sample={'folders': n_dirs + 30, 'entries': total, 'open_files_limit': limit, 'exit': r['exit']})
+            run.traces_validated += 1
+            if r['timed_out'] or r['exit'] != 0:
+                run.fail('C17 (%d folders of 16 links each, at most %d open files): the listing of a fully readable tree did not reach its end: %s' % (
+                    n_dirs, limit, 'hang' if r['timed_out'] else (r['stdout'] + r['stderr'])[-300:]), {'kind': 'few-fds', 'limit': limit, 'exit': r['exit']})
+    finally:
+        shutil.rmtree(base, ignore_errors=True)
+
+
 def spawn_failure_family(run, binary):
     """A thread that cannot be started (pthread_create fails with EAGAIN: the process is at its thread or memory limit) at any of the
     thread creations of a local sync - the two doer threads, the walker threads of either side, the progress thread.  The property's
@@ -433,6 +464,7 @@ def check(run):
     unreadable_subfolder_family(run, binary)
     few_cpus_family(run, binary)
     readdir_fault_family(run, binary)
+    many_folders_few_fds_family(run, binary)
     return run.finish(search=None)     # every case already ran the property oracle on the implementation
 
 
